@@ -36,10 +36,10 @@ ARRAY_DUNDERS = ['__add__', '__sub__', '__mul__', '__floordiv__', '__truediv__',
 INTS = ['1', '0', '-1', '-9', '7', '8', '9', 'L', 'L + 1', '-L - 1', '2 ** 31', '2 ** 64', '-2 ** 63', 'True']
 SMALL_INTS = ['2', '0', '-1', '1', 'L', 'L + 1', '3', '64']
 BITLIKE = ["'0b1'", "''", "'0x0f'", 's', "'0b' + '1' * (L + 1)", "b'\\x00'", "[1, 0]", "bitarray.bitarray('101')", "bitstring.Bits(bin='10')", "'0b2'", "'0xg'", "'ue=3'", "'uint:=3'",
-           "bytearray(b'a')", "memoryview(b'ab')", "(x for x in [1, 0, 1])", "io.BytesIO(b'ab')", "True", "bitstring.BitStream('0x1', pos=2)", "array.array('B', [7])", "'hex:8=a'", "range(3)"]
+           "bytearray(b'a')", "memoryview(b'ab')", "(x for x in [1, 0, 1])", "io.BytesIO(b'ab')", "True", "bitstring.BitStream('0x1', pos=2)", "array.array('B', [7])", "'hex:8=a'", "range(3)", "IMM"]
 FORMATS = ["'u1'", "''", "','", "'0x'", "'0b2'", "'uint'", "'uint:=3'", "'ue:3'", "'3*'", "'2*('", "')'", "'hex:3=a'", "'float:7=1'", "'=5'", "'u8='", "'0x1g'", "'>'", "'<z'", "'bits:-1'", "'0*u8'",
            "'2*(2*(u1))'", "3", "-1", "0", "'bin'", "'hex'", "'bits, ue'", "'ue, bits'", "'bits, bits'", "['u1', 1]", "[-1]", "[1, 'x']", "'pad:2'", "'bool'", "'bytes'", "'float'", "'e4m3mxfp'",
-           "'u:n'", "'2*u1, bits'", "'<h'", "'>10Q'", "bitstring.Dtype('u2')", "'int:0'", "'u0'", "'hex:-4'"]
+           "'u:n'", "'2*u1, bits'", "'<h'", "'>10Q'", "bitstring.Dtype('u2')", "'int:0'", "'u0'", "'hex:-4'", "'ue'", "'se'", "'uie'", "'sie'", "'ue, ue'", "'se, bits'"]
 BOOLS = ['None', 'True', 'False', '0', '1']
 POSITIONS = ['0', '-1', 'L', '-L - 1', '[0]', '[0, -1]', '[L]', '(x for x in [0])', 'range(L)', 'range(L + 1)', 'range(-1, -L - 1, -1)', 'range(0, L, 2)', '[]', 'None', '(0, L)', '[True]', '[2 ** 64]', 'range(0)']
 STREAMS_IO = ['io.StringIO()']
@@ -77,7 +77,7 @@ def describe(tier):
     return dict(bounds=dict(surface='every public attribute of Bits, BitArray, ConstBitStream, BitStream, Array, Dtype + pack (dir() + operator dunders), discovered at run time',
                             pools='typed by parameter name: ints, bitstring-likes, token strings incl. malformed, positions incl. ranges/generators, bools, dtypes, numbers, iterables, streams',
                             deviation='all argument tuples with <= 1 adversarial argument; <= 2 for %s' % ('methods with <= 4 parameters' if q else 'every method'),
-                            states='empty, 1 bit, 9 bits, 16 bits at pos 5, file-backed (length-limited) x msb0 / lsb0',
+                            states='empty, 1 bit, 9 bits, 16 bits at pos 5, file-backed (length-limited), a truncated exp-Golomb code x msb0 / lsb0',
                             sequences='second call from a 12-call core battery after every first call of the 9-bit state' + ('' if q else '; third call from the battery'),
                             excluded='assigning to read-only properties of immutable classes; private names; arguments that would allocate > 2**27 bits'),
                 rule='each generated (object state, call) executed once on a fresh object; non-trivial = the call is accepted (succeeds); rejections are judged for their exception class; '
@@ -99,6 +99,7 @@ def states(bs, ctx):
         'sixteen': (lambda cls: (getattr(bs, cls)(bin='1011001000000001', pos=5) if 'Stream' in cls else getattr(bs, cls)(bin='1011001000000001')),
                     "bitstring.{cls}(bin='1011001000000001'{pos})"),
         'file': (filebacked, "bitstring.{cls}(filename=F, length=18)"),
+        'golomb': (lambda cls: getattr(bs, cls)(bin='0010'), "bitstring.{cls}(bin='0010')"),       # an exp-Golomb code cut short by one bit
     }
 
 
@@ -106,7 +107,7 @@ def shards(tier, seed):
     out = []
     for lsb0 in (False, True):
         for cls in CLASSES:
-            for st in ('empty', 'one', 'nine', 'sixteen', 'file'):
+            for st in ('empty', 'one', 'nine', 'sixteen', 'file', 'golomb'):
                 out.append(dict(kind='methods', cls=cls, state=st, lsb0=lsb0))
         for cls in CLASSES:
             out.append(dict(kind='ctor', lsb0=lsb0, cls=cls))
@@ -170,9 +171,23 @@ def render_call(target, method, params, args):
 def namespace(bs, extra=None):
     import bitarray
     import array
-    ns = dict(bitstring=bs, bitarray=bitarray, array=array, io=io)
+    ns = dict(bitstring=bs, bitarray=bitarray, array=array, io=io, IMM=bs.Bits(bin='0110'))
     ns.update(extra or {})
     return ns
+
+
+def witness(bs, ns):
+    """Objects the caller did not hand over for mutation: the immutable argument IMM and the values of string literals."""
+    try:
+        if ns['IMM'].bin != '0110' or len(ns['IMM']) != 4:
+            return f"immutable argument changed: IMM is now {ns['IMM'].bin[:24]!r}"
+        if bs.Bits('0x3c').bin != '00111100' or bs.Bits('0b1').bin != '1' or bs.BitArray('0b01').bin != '01':
+            return "string literal value changed: a parsed-string cache entry was modified"
+    except core.Hang:
+        raise
+    except Exception as e:  # noqa: BLE001
+        return f"witness unusable: {type(e).__name__}"
+    return None
 
 
 def invariants(bs, obj, snap, cls):
@@ -209,7 +224,8 @@ def judge(acc, op, src, pre, got, problem, group=''):
                       '\n'.join(lines), 'success or a documented exception; objects valid afterwards', (got, problem))
 
 
-POST_SRC = ["for o in [v for v in list(globals().values()) if isinstance(v, bitstring.Bits)]:",
+POST_SRC = ["assert IMM.bin == '0110', IMM.bin", "assert bitstring.Bits('0x3c').bin == '00111100' and bitstring.Bits('0b1').bin == '1' and bitstring.BitArray('0b01').bin == '01'",
+            "for o in [v for v in list(globals().values()) if isinstance(v, bitstring.Bits)]:",
             "    assert len(o) == len(o.bin)", "    assert not hasattr(o, 'pos') or 0 <= o.pos <= len(o), (o.pos, len(o))",
             "assert 'SNAP' not in globals() or (s.bin, len(s)) == SNAP, (s.bin, SNAP)"]
 
@@ -249,7 +265,7 @@ def methods(bs, acc, ctx, shard):
     else:
         setup = []
     mksrc = st[1].format(cls=cls, pos=', pos=5' if 'Stream' in cls else '')
-    pre = ["import bitstring, bitarray, array, io", f"bitstring.options.lsb0 = {lsb0}"] + setup + [f"s = {mksrc}", "L = len(s)"] + (["SNAP = (s.bin, len(s))"] if cls in ('Bits', 'ConstBitStream') else [])
+    pre = ["import bitstring, bitarray, array, io", f"bitstring.options.lsb0 = {lsb0}"] + setup + [f"s = {mksrc}", "L = len(s)", "IMM = bitstring.Bits(bin='0110')"] + (["SNAP = (s.bin, len(s))"] if cls in ('Bits', 'ConstBitStream') else [])
     names = sorted(n for n in dir(klass) if not n.startswith('_')) + [d for d in DUNDERS if hasattr(klass, d)]
     if cls in ('Bits', 'ConstBitStream'):
         names = [n for n in names if n not in ('__setitem__', '__delitem__') or hasattr(klass, n)]
@@ -276,7 +292,13 @@ def methods(bs, acc, ctx, shard):
                     with core.watchdog(10):
                         got = run_src(ns, f"s.{name} = {v}")
                     got = (got[0], got[1] if got[0] == 'exc' else None)
-                    judge(acc, 'property', f"s.{name} = {v}", pre, got, invariants(bs, s, snap, cls), group=name + '=')
+                    judge(acc, 'property', f"s.{name} = {v}", pre, got, invariants(bs, s, snap, cls) or witness(bs, ns), group=name + '=')
+                    if stname == 'nine' and got[0] == 'ok':
+                        # what was assigned must not be reachable through later changes to s
+                        for b2 in CORE_MUT:
+                            with core.watchdog(10):
+                                g2 = run_src(ns, b2)
+                            judge(acc, 'call', b2, pre + [f"s.{name} = {v}"], (g2[0], g2[1] if g2[0] == 'exc' else None), invariants(bs, ns['s'], None, cls) or witness(bs, ns), group='seq|' + name + '=')
             continue
         fn = getattr(klass, name)
         params = params_of(fn)
@@ -315,6 +337,7 @@ def methods(bs, acc, ctx, shard):
             if core.get_options() != (lsb0, False, 'saturate'):
                 problem = problem or f"module options changed to {core.get_options()}"
                 core.set_options(lsb0=lsb0)
+            problem = problem or witness(bs, ns)
             judge(acc, op, src, pre, obs_, problem, group=name)
             # depth 2 (and 3): follow with the core battery on the same object
             if stname == 'nine' and problem is None and all(a == d for a, d in zip(args[1:], [pool(name, p[0])[0] for p in params][1:])):
@@ -324,7 +347,7 @@ def methods(bs, acc, ctx, shard):
                         g2 = run_src(ns, b2)
                         if g2[0] == 'ok' and hasattr(g2[1], '__next__'):
                             list(itertools.islice(g2[1], 40))
-                    judge(acc, 'call', b2, pre + ["try:", f"    {src}", "except Exception:", "    pass"], (g2[0], g2[1] if g2[0] == 'exc' else None), invariants(bs, ns['s'], None if cls in ('BitArray', 'BitStream') else snap, cls), group='seq|' + name)
+                    judge(acc, 'call', b2, pre + ["try:", f"    {src}", "except Exception:", "    pass"], (g2[0], g2[1] if g2[0] == 'exc' else None), invariants(bs, ns['s'], None if cls in ('BitArray', 'BitStream') else snap, cls) or witness(bs, ns), group='seq|' + name)
                     if not q:
                         g3 = run_src(ns, battery[(len(b2) + len(src)) % len(battery)])
                         judge(acc, 'call', battery[(len(b2) + len(src)) % len(battery)], pre + ["try:", f"    {src}", f"    {b2}", "except Exception:", "    pass"], (g3[0], g3[1] if g3[0] == 'exc' else None),
@@ -352,7 +375,7 @@ def prop_values(bs, name):
     if rt is bool:
         return ['True', 'False', '1', '0', '2']
     if rt is bs.Bits:
-        return ["'0b1'", "bitstring.Bits('0b1')", "''", "'0b2'", "[1, 0]", "s"]
+        return ["'0b1'", "bitstring.Bits('0b1')", "''", "'0b2'", "[1, 0]", "s", "IMM", "'0x3c'"]
     return ['None']
 
 
